@@ -229,7 +229,7 @@ ROLE = {"ud-multi": "use_def/last writer missing for a reader of two or more sca
 def main():
     drv.build()
     rep = common.Report("C12", "model_checking")
-    n = 90 if rep.tier == "quick" else 600
+    n = 360 if rep.tier == "quick" else 2400
     fs = ilgen.corpus(3000 + rep.seed, n, profile="mixed", widths=(32, 8))
     fs += ilgen.corpus(3500 + rep.seed, n // 3, profile="const", widths=(32,))
     holed = ilgen.corpus(3700 + rep.seed, n // 4, profile="mixed", widths=(32,))
